@@ -15,8 +15,8 @@ import vlib
 
 META = {
     "category": "proof",
-    "text": "Coq theorems (Scrunch/Props_C19.v, closed under the global context) over executable models of scrunch/src/{lib,sigma,psi/mod,psi/wavelet_tree,sa,isa,sampled,binary_search}.rs: for every text, alphabet, valid record division and needle the modelled CompressedDocument (Sigma; backward search over the WaveletTreePsi table incl. its streaming constructor, lookup, lower_bound, upper_bound and constrain; locate through the sampled suffix array; extract through the sampled inverse suffix array; record lookup by rank/select; lib.rs inverse_and_psi_u32) returns exactly the occurrences, counts, record numbers, record contents, length and record count of a plain scan, as do PsiDocument over the reference arrays and ReferenceDocument; rank/select laws and the trait-default binary searches; the prefix-code wavelet tree (prefix.rs access/rank/select over per-node bit vectors, closed for the fixed-width encoder); SA-IS, the RRR/sparse bit-vector encodings, the Huffman code book and serialisation are specified by interface only and compared with the code component-wise (every index, every bit vector, before and after re-parsing) by differential runs of Rust vs extracted model vs a plain scan.",
-    "note": "Partial by construction: suffix sorting (SA-IS), the RRR / sparse bit-vector encodings, the Huffman code book and the protobuf framing are not proved (interface + correspondence). Trusted: Coq kernel; tools/constants.py; ExtrOcamlBasic extraction + ocaml/scrunch driver; harness c19; std binary_search/partition_point/sort/HashMap as specified. Texts need a valid record division (non-empty text, last record non-empty): both constructors refuse the rest.",
+    "text": "Coq theorems (Scrunch/Props_C19.v, closed under the global context) over executable models of scrunch/src/{lib,sigma,psi/mod,psi/wavelet_tree,sa,isa,sampled,binary_search}.rs: for every text, alphabet, valid record division and needle the modelled CompressedDocument (Sigma; backward search over the WaveletTreePsi table incl. its streaming constructor, lookup, lower_bound, upper_bound and constrain; locate through the sampled suffix array; extract through the sampled inverse suffix array; record lookup by rank/select; lib.rs inverse_and_psi_u32) returns exactly the occurrences, counts, record numbers, record contents, length and record count of a plain scan, as do PsiDocument over the reference arrays and ReferenceDocument; rank/select laws and the trait-default binary searches; the prefix-code wavelet tree (prefix.rs access/rank/select over per-node bit vectors, closed for the fixed-width encoder); the two bit-vector encodings CompressedDocument uses are transcribed and proved equal to the plain bit list for every bit pattern: sparse.rs (B-tree of delta slices: from_indices / construct, access, rank, select, inherited rank0 / select0) and rrr.rs (63-bit words, classes, offsets through the binomial table K with widths L, decode inverts encode, p / r superblock samples, s0 / s1 select samples, u63::select_word, access, access_rank, rank, select, select0; no push_word assertion fails below 2^62 bits), put under the document's record boundaries and under every node of the prefix wavelet tree; SA-IS, the Huffman code book and serialisation are specified by interface only and compared with the code component-wise (every index, every bit vector, before and after re-parsing) by differential runs of Rust vs extracted model (list interface AND the structural sparse / rrr models, incl. the L / K tables entry by entry) vs a plain scan.",
+    "note": "Partial by construction: suffix sorting (SA-IS), the Huffman code book and the protobuf / byte framing (incl. the byte-at-a-time loops of BitArray load / push_word and the varint headers of the sparse nodes) are not proved (interface + correspondence). Inside the document model the sigma columns, the sampled arrays' presence vectors, y_key and WaveletTreePsi's wavelet trees stay plain lists read through the list functions the sparse / rrr theorems prove the encodings compute (C19_compressed_document_answers_as_scan_structural_partial re-instantiates only the record boundaries). Machine-word effects (u64 wrap, width <= 32 in FixedWidthIterator, lengths >= 2^62) are outside the models. Trusted: Coq kernel; tools/constants.py; ExtrOcamlBasic extraction + ocaml/scrunch driver; harness c19; std binary_search/partition_point/sort/HashMap as specified. Texts need a valid record division (non-empty text, last record non-empty): both constructors refuse the rest.",
 }
 
 PROPS = "theories/Scrunch/Props_C19.v"
@@ -447,12 +447,27 @@ def run(chk):
         bvs.append((runs, len(runs_to_bits(runs)) <= 200))
     for runs in [[(70000, 1)], [(35000, 0), (35000, 1)], [(1, 1), (1, 0)] * 9000, [(63, 1), (63, 0)] * 70, [(4032, 0), (1, 1)] * 4] if not quick else [[(20000, 1)], [(1, 1), (1, 0)] * 3000]:
         bvs.append((runs, False))
+    # medium vectors (several 504-bit superblocks, several 64-one / 64-zero select samples): the
+    # structural model of rrr runs on these too
+    for k in range(10 if quick else 160):
+        dens = rng.choice([0, 1, 2, 8, 32, 62, 63])
+        runs, total, cap = [], 0, rng.choice([504, 505, 567, 1008, 1100, 1500])
+        while total < cap:
+            n = min(cap - total, rng.choice([1, 1, 2, 5, 40, 63, 64, 130, 504]) if dens in (0, 63) or rng.chance(1, 3) else 1)
+            b = 1 if dens == 63 else 0 if dens == 0 else int(rng.below(64) < dens)
+            if dens in (0, 63) and rng.chance(1, 5):
+                b ^= 1
+                n = 1
+            runs.append((n, b))
+            total += n
+        bvs.append((runs, False))
     bv_lines, bv_meta = [], []
     for runs, small in bvs:
         spec = " ".join("%d:%d" % (n, b) for n, b in runs) if runs else "-"
+        nbits = sum(n for n, _ in runs)
         for kind in BV_KINDS:
             bv_lines.append("bv|%s|%s" % (kind, spec))
-            bv_meta.append((kind, runs, small))
+            bv_meta.append((kind, runs, small or (kind == "rrr" and nbits <= 1600)))
     # ---------------- wavelet trees
     wt_lines, wt_meta = [], []
     for k in range(60 if quick else 1200):
@@ -481,7 +496,7 @@ def run(chk):
 
     model_lines = [d["line"] if d["model"] else "" for d in docs]
     impl_out = run_lines(hxbin, lines + bv_lines + wt_lines + sais_lines + fuzz_lines, chk.work, "impl")
-    model_in = model_lines + [l if m[2] else "" for l, m in zip(bv_lines, bv_meta)] + wt_lines + sais_lines
+    model_in = model_lines + [l if m[2] else "" for l, m in zip(bv_lines, bv_meta)] + wt_lines + sais_lines + ["rrrtab"]
     model_out = run_lines(mx, model_in, chk.work, "model")
 
     evaluations = 0
@@ -579,6 +594,21 @@ def run(chk):
         if bad:
             prop_bad.append({"variant": "bit_vector:" + kind, "line": bv_lines[j][:2000], "what": bad})
         if small:
+            mo_halves = mo.split(" || ")
+            mo = mo_halves[0]
+            if len(mo_halves) > 1:
+                # the structural model of this implementation (sparse B-tree / rrr blocks)
+                st = dict(t.split("=", 1) for t in mo_halves[1].split(" ") if "=" in t)
+                stats["structural_" + ("rrr" if kind == "rrr" else "sparse")] = stats.get("structural_" + ("rrr" if kind == "rrr" else "sparse"), 0) + 1
+                if len(bits) > 200:
+                    # the implementation printed the digest of its tables, found equal to the plain
+                    # bit array's above: the tables themselves are `tabs`
+                    toks = dict(toks)
+                    toks.update({nm: ",".join(tab) for nm, tab in zip("arzst", tabs)})
+                for nm in "arzst":
+                    if st.get(nm) != toks.get(nm):
+                        corr_bad.append({"section": "bit_vector:" + kind + ":structural-model:" + nm, "line": bv_lines[j][:2000], "impl": (toks.get(nm) or "")[:3000], "model": st.get(nm, mo_halves[1][:80])[:3000]})
+                        break
             mt = dict(t.split("=", 1) for t in mo.split(" ") if "=" in t)
             for nm in "arzst":
                 if mt.get(nm) != toks.get(nm):
@@ -596,7 +626,7 @@ def run(chk):
             prop_bad.append({"variant": "wavelet_tree:" + kind, "line": wt_lines[j], "what": io[-300:]})
         else:
             halves = mo.split(" || ")
-            for which, mtoks in zip(("list-interface", "prefix-tree-structure"), halves):
+            for which, mtoks in zip(("list-interface", "prefix-tree-structure", "prefix-tree-over-rrr-model"), halves):
                 if io.split(" bad=")[0] != mtoks:
                     corr_bad.append({"section": "wavelet_tree:" + kind + ":" + which, "line": wt_lines[j], "impl": io[:300], "model": mtoks[:300]})
     # ---------------- suffix sorting
@@ -616,6 +646,29 @@ def run(chk):
             prop_bad.append({"variant": "sais/psi", "line": sais_lines[j], "got": io[:300], "spec": "sa=%s psi=%s" % (jn(exp), jn(psi_))})
         if mo != "sa=%s psi=%s" % (jn(exp), jn(psi_)):
             corr_bad.append({"section": "sais/psi", "line": sais_lines[j], "model": mo[:300], "sorted": jn(exp)})
+    # ---------------- the L / K tables of rrr.rs against the model's (and against n-choose-k)
+    import math
+    import re
+    src = open(os.path.join(vlib.REPO, "scrunch/src/bit_vector/rrr.rs")).read()
+    mL = re.search(r"const L: &\[usize\] = &\[(.*?)\];", src, re.S)
+    mK = re.search(r"const K: &\[&\[u64\]\] = &\[(.*?)\n\];", src, re.S)
+    if not mL or not mK:
+        raise RuntimeError("cannot find the L / K tables in scrunch/src/bit_vector/rrr.rs")
+    src_L = [int(x) for x in re.findall(r"\d+", mL.group(1))]
+    src_K = [[int(x) for x in re.findall(r"\d+", row)] for row in re.findall(r"&\[(.*?)\]", mK.group(1), re.S)]
+    tab = dict(t.split("=", 1) for t in model_out[-1].split(" ") if "=" in t)
+    mod_L = [int(x) for x in tab.get("L", "").split(",") if x]
+    mod_K = [[int(x) for x in row.split(",") if x] for row in tab.get("K", "").split(";")]
+    evaluations += len(src_L) + sum(len(r) for r in src_K)
+    stats["rrr_table_entries"] = len(src_L) + sum(len(r) for r in src_K)
+    if mod_K != [[math.comb(n, k) for k in range(n + 1)] for n in range(64)]:
+        raise RuntimeError("the model's K table is not Pascal's triangle (machinery error)")
+    if src_L != mod_L:
+        corr_bad.append({"section": "rrr:L-table", "impl": jn(src_L), "model": jn(mod_L)})
+    if src_K != mod_K:
+        rows = [n for n in range(max(len(src_K), len(mod_K))) if n >= len(src_K) or n >= len(mod_K) or src_K[n] != mod_K[n]]
+        corr_bad.append({"section": "rrr:K-table", "rows": rows[:10], "impl": jn(src_K[rows[0]]) if rows[0] < len(src_K) else None,
+                         "model": jn(mod_K[rows[0]]) if rows[0] < len(mod_K) else None})
     # ---------------- in-harness search, deep codes
     off += len(sais_lines)
     for j, l in enumerate(fuzz_lines):
